@@ -1040,6 +1040,7 @@ type Reader struct {
 	ctx             map[string]any
 	parentCtx       *map[string]any
 	headless        bool
+	pendingErr      error // block decoding error, reported once the preceding data has been consumed
 }
 
 type decodingTask struct {
@@ -1628,6 +1629,10 @@ func (this *Reader) Read(block []byte) (int, error) {
 }
 
 func (this *Reader) processBlock() (int64, error) {
+	if this.pendingErr != nil {
+		return 0, this.pendingErr
+	}
+
 	if atomic.LoadInt32(&this.blockID) == _CANCEL_TASKS_ID {
 		return 0, nil
 	}
@@ -1720,17 +1725,27 @@ func (this *Reader) processBlock() (int64, error) {
 				continue
 			}
 
-			if r.decoded > this.blockSize {
+			if r.err == nil && r.decoded > this.blockSize {
 				errMsg := fmt.Sprintf("Block %d incorrectly decompressed", r.blockID)
-				return decoded, &IOError{msg: errMsg, code: kanzi.ERR_PROCESS_BLOCK}
+				r.err = &IOError{msg: errMsg, code: kanzi.ERR_PROCESS_BLOCK}
+			}
+
+			if r.err != nil {
+				// Never hand out bytes of the failed block or of the blocks after it.
+				// Deliver the blocks decoded before it, then report the error
+				// (and keep reporting it).
+				this.pendingErr = r.err
+				atomic.StoreInt32(&this.blockID, _CANCEL_TASKS_ID)
+				this.consumed = 0
+
+				if decoded > 0 {
+					return decoded, nil
+				}
+
+				return 0, r.err
 			}
 
 			decoded += int64(r.decoded)
-
-			if r.err != nil {
-				return decoded, r.err
-			}
-
 			copy(this.buffers[n].Buf, r.data[0:r.decoded])
 			n++
 			hashType := kanzi.EVT_HASH_NONE
